@@ -123,6 +123,7 @@ class _ExtendMatchAction(argparse.Action):
         else:
             if self.override:
                 setattr(namespace, self.dest, matches)
+                self.override = False
             else:
                 dest = getattr(namespace, self.dest)
                 dest.extend(matches)
